@@ -231,7 +231,7 @@ func (s *Service) handleCurrentDependentRootChanged(ctx context.Context) {
 	go s.refreshProposerDutiesForEpoch(ctx, s.chainTimeService.CurrentEpoch())
 	// We need to refresh the sync committee duties for the next period if we are
 	// at the appropriate boundary.
-	if uint64(s.chainTimeService.CurrentEpoch())%s.epochsPerSyncCommitteePeriod == 0 {
+	if s.handlingAltair && uint64(s.chainTimeService.CurrentEpoch())%s.epochsPerSyncCommitteePeriod == 0 {
 		go s.refreshSyncCommitteeDutiesForEpochPeriod(ctx, s.chainTimeService.CurrentEpoch()+phase0.Epoch(s.epochsPerSyncCommitteePeriod))
 	}
 	// We need to refresh the attester duties for the next epoch.
